@@ -538,6 +538,31 @@ def _build(spec, variant=None):
                     if np.isfinite(hi[j]):
                         B.bound_constr.append(('rowU', [gi],
                                                m.st(-1.0 * x[j] >= -float(hi[j]))))
+    if variant.get('loose_bounds'):
+        # redundant, looser bounds stated AFTER the real ones (whole variable, slices, entries):
+        # several Bounds objects on the same entries, the tightest has to win
+        lr = np.random.default_rng(int(variant['loose_bounds']))
+        for bi, x in enumerate(xs):
+            lo = np.array([spec['bounds'][i]['lo'] for i in range(off[bi], off[bi + 1])])
+            hi = np.array([spec['bounds'][i]['hi'] for i in range(off[bi], off[bi + 1])])
+            n_ = len(lo)
+            d_ = np.round(lr.uniform(0.5, 3.0, n_), 1)
+            how = int(lr.integers(3))
+            if how == 0:
+                m.st(x <= np.where(np.isfinite(hi), hi + d_, 1e4))
+                m.st(x >= np.where(np.isfinite(lo), lo - d_, -1e4))
+            elif how == 1:
+                for j in range(n_):
+                    if np.isfinite(hi[j]):
+                        m.st(x[j] <= float(hi[j] + d_[j]))
+                    if np.isfinite(lo[j]):
+                        m.st(x[j] >= float(lo[j] - d_[j]))
+            else:
+                k_ = int(lr.integers(0, n_))
+                if np.all(np.isfinite(hi[k_:])):
+                    m.st(x[k_:] <= float(hi[k_:].max() + d_[0]))
+                if np.all(np.isfinite(lo[:k_ + 1])):
+                    m.st(x[:k_ + 1] >= float(lo[:k_ + 1].min() - d_[0]))
     for l in spec['lin']:
         lhs = mat(l['A'])
         b = arr(l['b'])
